@@ -542,6 +542,9 @@ def _rdcomma(fiter, s, conchar, blank, tolist, keep_name):
                 vals.append(v)
             else:
                 vals.append(blank)
+        if start_field == 0:
+            # the card name (kept on the first line) is not a data field
+            i -= 1
         # first field for continuation cards will never be retained:
         start_field = 1
         s = fiter.send(False)
